@@ -1,0 +1,86 @@
+//go:build verif
+
+// Contracts for package witness, checked by /verif/govc (see /verif/DESIGN.md).
+// This file contains no code: only structured //@ comments keyed by function.
+
+package witness
+
+//@ func (*Witness).Update
+//@   returns (out, err)
+//@   let S        := w.lsp
+//@   let L        := old(w.Logs[logID])
+//@   let known    := old(logID in w.Logs)
+//@   let nOK      := parsesAs(nextRaw, L.Origin, L.SigV)
+//@   let nS       := cpSize(text(nextRaw))
+//@   let nH       := cpHash(text(nextRaw))
+//@   let stored   := old(st_has[S][logID])
+//@   let pv       := old(st_val[S][logID])
+//@   let pOK      := parsesAs(pv, L.Origin, L.SigV)
+//@   let pS       := cpSize(text(pv))
+//@   let pH       := cpHash(text(pv))
+//@   let sameRoot := str(nH) == str(pH)
+//@   let vcOK     := vc(L.Hasher, pS, nS, cProof, pH, nH)
+//@   let V        := verdict(known, nOK, stored, pOK, oldSize, nS, pS, sameRoot, len(cProof) == 0, vcOK)
+//@   let woCalled    := n_wo == old(n_wo) + 1
+//@   let glCalled    := n_gl == old(n_gl) + 1
+//@   let setCalled   := n_set == old(n_set) + 1
+//@   let signCalled  := n_sign == old(n_sign) + 1
+//@   let closeCalled := n_close == old(n_close) + 1
+//@   let committed   := setCalled && set_err == nil
+//@   let fault    := (woCalled && wo_err != nil) || (glCalled && gl_err != nil && code(gl_err) != NotFound)
+//@                   || (signCalled && sign_err != nil) || (setCalled && set_err != nil)
+//@   let zeroGrow := pS == 0 && nS > 0
+//@   let cAttempt := counterUpdateAttempt
+//@   let cSuccess := counterUpdateSuccess
+//@   let cInvalid := counterInvalidConsistency
+//@   let cIncons  := counterInconsistentCheckpoints
+//@
+//@   requires w != nil && w.lsp != nil
+//@   requires cAttempt != nil && cSuccess != nil && cInvalid != nil && cIncons != nil
+//@   requires cAttempt != cSuccess && cAttempt != cInvalid && cAttempt != cIncons && cSuccess != cInvalid && cSuccess != cIncons && cInvalid != cIncons
+//@
+//@   // ---- protocol with the store (C03, C05, C07)
+//@   ensures[C07.p1] n_wo <= old(n_wo) + 1 && n_gl <= old(n_gl) + 1 && n_set <= old(n_set) + 1 && n_sign <= old(n_sign) + 1
+//@   ensures[C07.p1] (glCalled ==> woCalled && wo_err == nil && gl_h == wo_h) && (setCalled ==> glCalled && set_h == wo_h) && n_ro == old(n_ro)
+//@   ensures[C07.p1] woCalled ==> storeOf(wo_h) == S || wo_err != nil
+//@   ensures[C07.p1] woCalled && wo_err == nil ==> logOf(wo_h) == logID
+//@   ensures[C07.p2] woCalled && wo_err == nil ==> closeCalled && close_h == wo_h
+//@   ensures[C07.p2] !(woCalled && wo_err == nil) ==> n_close == old(n_close)
+//@   ensures[C07.a]  glCalled && gl_err != nil && code(gl_err) != NotFound ==> err != nil && !signCalled && !setCalled
+//@   ensures[C07.b]  setCalled && set_err != nil ==> err != nil && out == nil
+//@   ensures[C07.c]  err == nil ==> committed && st_has[S][logID] && st_val[S][logID] == out
+//@
+//@   // ---- acceptance (C01, C02, C04)
+//@   ensures[C04.a]  err == nil <==> committed
+//@   ensures[C04.b]  err == nil ==> signCalled && sign_err == nil && out == sign_out && set_arg == out
+//@   ensures[C04.b]  err == nil ==> out == cosign(nextRaw, w.Signers, old(n_sign)) && out != nil
+//@   ensures[C04.c]  err == nil ==> st_has[S][logID] && st_val[S][logID] == out
+//@   ensures[C02.a]  err == nil ==> known && nOK
+//@   ensures[C02.b]  !known ==> out == nil && err == ErrUnknownLog && !woCalled && !signCalled && cnt == old(cnt) && n_ro == old(n_ro)
+//@   ensures[C02.c]  committed ==> text(set_arg) == text(nextRaw) && known && nOK
+//@   ensures[C01.a]  err == nil && stored ==> pOK && pS <= nS && (pS == nS ==> sameRoot) && (pS < nS ==> vcOK)
+//@   ensures[C01.b]  committed ==> err == nil
+//@   ensures[C01.c]  n_commit <= old(n_commit) + 1
+//@
+//@   // ---- refusal (C03)
+//@   ensures[C03.a]  err != nil ==> st_has == old(st_has) && st_val == old(st_val) && n_commit == old(n_commit)
+//@   ensures[C03.b]  err != nil ==> out == nil || (stored && out == pv)
+//@   ensures[C03.c]  err != nil && signCalled && sign_err == nil ==> out == nil
+//@
+//@   // ---- decision table (C09): V is the spec-level first-match verdict
+//@   ensures[C09.1]  V == V_UnknownLog       ==> out == nil && err == ErrUnknownLog
+//@   ensures[C09.2]  V == V_NoValidSignature ==> out == nil && err == ErrNoValidSignature
+//@   ensures[C09.3]  !fault && V == V_AcceptFirst && oldSize == 0 && len(cProof) == 0 ==> err == nil
+//@   ensures[C09.4]  !fault && V == V_OldSizeInvalid ==> out == pv && err == ErrOldSizeInvalid
+//@   ensures[C09.5]  !fault && V == V_Stale          ==> out == pv && err == ErrCheckpointStale
+//@   ensures[C09.6]  !fault && V == V_RootMismatch   ==> out == pv && err == ErrRootMismatch
+//@   ensures[C09.7]  !fault && V == V_BadProof && !zeroGrow ==> out == pv && err == ErrInvalidProof
+//@   ensures[C09.8]  !fault && V == V_Accept   && !zeroGrow ==> err == nil
+//@   ensures[C09.9]  fault ==> err != nil && out == nil && !isSentinel(err)
+//@
+//@   // ---- counters (C20)
+//@   ensures[C20.a]  cnt[cAttempt][logID] == old(cnt[cAttempt][logID]) + (known ? 1 : 0)
+//@   ensures[C20.b]  cnt[cSuccess][logID] == old(cnt[cSuccess][logID]) + (err == nil ? 1 : 0)
+//@   ensures[C20.c]  cnt[cInvalid][logID] == old(cnt[cInvalid][logID]) + ((zeroGrow ? err == ErrInvalidProof : (!fault && V == V_BadProof)) ? 1 : 0)
+//@   ensures[C20.d]  cnt[cIncons][logID]  == old(cnt[cIncons][logID]) + ((!fault && V == V_RootMismatch) ? 1 : 0)
+//@   ensures[C20.e]  forall c Iface, l Str :: (l != logID || (c != cAttempt && c != cSuccess && c != cInvalid && c != cIncons)) ==> cnt[c][l] == old(cnt[c][l])
